@@ -4,7 +4,7 @@
 // from before the last device write of the top-level finalize is REJECTED; a writer dropped without the top-level finalize leaves
 // only rejected images; an accepted image lists exactly the point clouds of the completed file.
 //@target src/e57_writer.rs
-//@check crash_images_are_rejected serves=C15 fn=E57Writer::{new,finalize_customized_xml},PagedWriter::{write,flush,drop} note="BOUNDED: 3 writer programs (no cloud; one cloud of 50 points + blob; two clouds of 700 and 3 points), each also dropped without finalize after every stage; every write-granular prefix and torn cuts at 1, 24, 33, 40, 48, 512, 1023 bytes inside every device write; E57Reader::new on each image"
+//@check crash_images_are_rejected serves=C15 fn=E57Writer::{new,finalize_customized_xml},PagedWriter::{write,flush,drop} note="BOUNDED: 3 writer programs (no cloud; one cloud of 50 points + blob; two clouds of 700 and 3 points), each also dropped without finalize after every stage; every write-granular prefix and torn cuts at 24 positions (every header field boundary 8..49 and +-1, 512, 1019, 1020, 1023) inside every device write; E57Reader::new on each image"
 //@module
     use crate::{E57Reader, RecordValue};
     use std::cell::RefCell;
@@ -43,9 +43,16 @@
         }
         image[pos as usize..end].copy_from_slice(bytes);
     }
+    /// what an accepted image reports: point cloud listing, XML text and the header fields (every read operation must equal the completed file)
     fn accepted_clouds(image: &[u8]) -> Option<Vec<String>> {
         match E57Reader::new(Cursor::new(image.to_vec())) {
-            Ok(r) => Some(r.pointclouds().iter().map(|p| p.guid.clone().unwrap_or_default()).collect()),
+            Ok(r) => {
+                let mut v: Vec<String> = r.pointclouds().iter().map(|p| format!("{:?} records={} offset={}", p.guid, p.records, p.file_offset)).collect();
+                let h = r.header();
+                v.push(format!("header: xml_offset={} xml_length={} phys_length={} page_size={}", h.phys_xml_offset, h.xml_length, h.phys_length, h.page_size));
+                v.push(r.xml().to_owned());
+                Some(v)
+            }
             Err(_) => None,
         }
     }
@@ -94,7 +101,7 @@
                 let mut image: Vec<u8> = Vec::new();
                 for (k, (pos, bytes)) in log.iter().enumerate() {
                     // torn cuts inside write k, then the complete write
-                    for cut in [1usize, 24, 33, 40, 48, 512, 1023] {
+                    for cut in [1usize, 8, 12, 16, 23, 24, 25, 26, 28, 31, 32, 33, 34, 36, 39, 40, 41, 47, 48, 49, 512, 1019, 1020, 1023] {
                         if cut < bytes.len() {
                             let mut torn = image.clone();
                             apply(&mut torn, *pos, &bytes[..cut]);
